@@ -13,7 +13,14 @@ PROM = dict(overlay="harness/prometheus", pkgdir="ee/plugins/prometheus", pkgnam
 RLU = dict(overlay="harness/rlulule", pkgdir="plugins/ratelimit/ulule", pkgname="roratelimit", init="github.com/ulule/limiter/v3")
 RLN = dict(overlay="harness/rlnative", pkgdir="plugins/ratelimit/native", pkgname="roratelimit", native=False)
 
+SORT = dict(overlay="harness/sort", pkgdir="plugins/sort", pkgname="rosort")
+STDIO = dict(overlay="harness/stdio", pkgdir="plugins/stdio", pkgname="rostdio")
+
 PROPS = {
+    "C18": {"quick": [J("^vhC18_sort_n3$", samples=4, **SORT), J("^vhC18_(reader_c2|writer_n2)$", samples=4, **STDIO)],
+            "thorough": [J("^vhC18_sort_n3$", samples=8, **SORT), J("^vhC18_(reader_c3|writer_n3)$", samples=8, **STDIO)], "bounds": {"sort_items": 3, "chunk_bytes": 3},
+            "assumptions": ["sort.Slice / sort.SliceStable are contract stubs: every permutation sorted w.r.t. less is explored (stable: ties keep their order)",
+                            "partial claim: sort plugin and stdio readers/writers only; strconv/regexp/time/template/base64/json/gob/csv wrappers are not encoded (their wrapped functions need concrete text)"]},
     "C20": {"quick": [J("^vhC20_ulule_L2$", samples=4, **RLU), J("^vhC20_native_n2$", samples=2, **RLN)],
             "thorough": [J("^vhC20_ulule_L3$", samples=8, **RLU), J("^vhC20_native_n3$", samples=2, **RLN)], "bounds": {"keys": 2, "quota": "1..2", "bursts": 2},
             "assumptions": ["ulule: the third-party store is a harness-side per-key counter with a symbolic limit (single window) and an injectable error; the real limiter.Limiter.Get is executed",
